@@ -120,3 +120,33 @@ theorem noise_nonneg (sumB2 varG : ℚ) (h2 env : Option ℚ) (hs : 0 ≤ sumB2)
     | some e => exact mul_nonneg (he e rfl) hk
 
 end C09R
+
+namespace C16R
+
+/-- LD(A,B) = LD(B,A): the cross sum is symmetric -/
+theorem pearson_symm {n : ℕ} (a b : Fin n → ℝ) :
+    (∑ i, a i * b i) / Real.sqrt ((∑ i, (a i)^2) * (∑ i, (b i)^2)) =
+    (∑ i, b i * a i) / Real.sqrt ((∑ i, (b i)^2) * (∑ i, (a i)^2)) := by
+  congr 1
+  · exact Finset.sum_congr rfl (fun i _ => mul_comm _ _)
+  · rw [mul_comm]
+
+/-- |R| ≤ 1, as squares (Cauchy–Schwarz) -/
+theorem pearson_sq_le_one {n : ℕ} (a b : Fin n → ℝ) (ha : 0 < ∑ i, (a i)^2) (hb : 0 < ∑ i, (b i)^2) :
+    (∑ i, a i * b i)^2 / ((∑ i, (a i)^2) * (∑ i, (b i)^2)) ≤ 1 :=
+  (C17R.pearson_r2_in_unit_interval a b ha hb).2
+
+/-- R is undefined (NaN) exactly when one of the two dosage vectors is constant: the centred sum of squares is 0
+    iff every entry equals the mean -/
+theorem undefined_iff_constant {n : ℕ} (a : Fin n → ℝ) (m : ℝ) :
+    (∑ i, (a i - m)^2 = 0) ↔ ∀ i, a i = m := by
+  rw [Finset.sum_eq_zero_iff_of_nonneg (fun i _ => sq_nonneg _)]
+  constructor
+  · intro h i
+    have := h i (Finset.mem_univ i)
+    have h2 : a i - m = 0 := by simpa using this
+    linarith
+  · intro h i _
+    rw [h i]; simp
+
+end C16R
